@@ -554,7 +554,7 @@ class Function:
         r = self.reach([self.entry_pos()], block_edges_removed=frozenset([(u, v)]))
         return p not in r and p in self.reach([self.entry_pos()])
 
-    def dump(self, out=sys.stdout):
+    def dump(self, out=sys.stdout, brief=False):
         out.write("== %s  [%s:%s]\n" % (self.sig, self.file, self.line))
         for bid in sorted(self.blocks, reverse=True):
             b = self.blocks[bid]
@@ -563,9 +563,16 @@ class Function:
             if "label" in b:
                 lab = " label=" + self.r(b["label"])
             out.write(" B%d%s%s succ=%s\n" % (bid, tag, lab, b["succ"]))
+            inblock = set(e for e in b["el"] if isinstance(e, int))
             for i, e in enumerate(b["el"]):
                 if isinstance(e, int):
                     n = self.nodes[e]
+                    if brief:
+                        p = self.parent.get(e)
+                        while p is not None and p not in inblock:
+                            p = self.parent.get(p)
+                        if p is not None and self.nodes[p]["k"] not in ("CompoundStmt",):
+                            continue
                     out.write("   %2d: [%d] %-22s %s   (l.%s)\n" % (i, e, n["k"], self.r(e)[:150], n.get("l")))
                 else:
                     out.write("   %2d: %s\n" % (i, json.dumps(e)))
